@@ -15,7 +15,7 @@ SIGS = [
 CELLS = [("h", "lambda t: n * t + k + g + extra"), ("hh", "lambda t: h(t) + 1"), ("viaspace", "lambda: _space.h(2) + PC.pc()")]
 OTHER_CELLS = [("h", "lambda t: n * t + k + g + extra + 1000"), ("hh", "lambda t: h(t) + 2"), ("viaspace", "lambda: _space.h(2) + 7")]
 EDITS = ["none", "P.k = v", "m.g = v", "P.h.formula changed", "P.extra = v", "P.formula changed (same signature)", "del P.hh; new hh",
-         "P.PC.pc.formula changed"]
+         "P.PC.pc.formula changed", "del hh in the space the instances are built from (P, or Other for 'base': Other)", "P.NP.formula gets a second parameter", "del P.PC.k2 (reference of the child space)", "P.PC.lateref = v (new reference in the child space)"]
 NEW_H = "lambda t: n * t + k + g + extra + 5"
 
 
@@ -39,12 +39,13 @@ class M:
             PC = P.new_space("PC")
             PC.k2 = k2
             PC.new_cells("pc", formula="lambda: n + k2")
+            PC.new_cells("late", formula="lambda: n + lateref")          # lateref does not exist at first
             NP = P.new_space("NP", formula="lambda r: None")         # nested parametric child
             NP.new_cells("both", formula="lambda: n * 100 + r * 10 + g")
             PS = self.PS = m.new_space("PS", bases=P, formula=SIGS[sig][0])      # derives P's cells and refs; instances of PS inherit them
             PS.new_cells("own", formula="lambda t: h(t) * 2")
 
-    def static(self, n, q, k, g, k2, extra, h_src=None, pc_src=None, hh_src=None):
+    def static(self, n, q, k, g, k2, extra, h_src=None, pc_src=None, hh_src=None, no_k2=False, lateref=None):
         """Oracle space: parameters bound as plain references."""
         with notrace():
             m = self.m
@@ -57,13 +58,20 @@ class M:
             for nm, src in cells:
                 if nm == "h" and h_src and self.sig != 4:
                     src = h_src
+                if nm == "hh" and hh_src == "DELETED":
+                    continue
                 if nm == "hh" and hh_src and self.sig != 4:
                     src = hh_src
                 St.new_cells(nm, formula=src)
             if self.sig != 4:
                 PC = St.new_space("PC")
-                PC.n, PC.k2 = n, k2
+                PC.n = n
+                if not no_k2:
+                    PC.k2 = k2
+                if lateref is not None:
+                    PC.lateref = lateref[0]
                 PC.new_cells("pc", formula=pc_src or "lambda: n + k2")
+                PC.new_cells("late", formula="lambda: n + lateref")
             return St
 
 
@@ -84,17 +92,18 @@ def _inst(mm, a, spell):
 
 
 def _values(sp, with_child):
-    out = {"h0": call(sp.cells["h"], 0), "h2": call(sp.cells["h"], 2), "hh1": call(sp.cells["hh"], 1)}
+    out = {"h0": call(lambda: sp.cells["h"](0)), "h2": call(lambda: sp.cells["h"](2)), "hh1": call(lambda: sp.cells["hh"](1))}
     if with_child:
-        out["viaspace"] = call(sp.cells["viaspace"])
+        out["viaspace"] = call(lambda: sp.cells["viaspace"]())
         out["pc"] = call(lambda: sp.spaces["PC"].cells["pc"]())
+        out["late"] = call(lambda: sp.spaces["PC"].cells["late"]())
     return out
 
 
 @harness
 def itemspace(k: int, g: int, k2: int, v: int, w: int, sig: int, a: int, b: int, s1: int, s2: int, ed: int, derived: bool) -> bool:
     sig, a, b, s1, s2, ed, derived = pick(sig, 0, 4), pick(a, 0, 1), pick(b, 0, 1), pick(s1, 0, 4), pick(s2, 0, 4), pick(ed, 0, len(EDITS) - 1), pickb(derived)
-    if derived and (sig == 4 or ed in (5, 7)):
+    if derived and (sig == 4 or ed in (5, 7, 9, 10, 11)):
         return True            # (base chosen by the formula / child-space edits: covered with derived=False)
     label("sig %s%s" % (SIGS[sig][0], " - instances of a space DERIVED from P" if derived else ""))
     mm = M(sig, k, g, k2, "I")
@@ -141,6 +150,7 @@ def itemspace(k: int, g: int, k2: int, v: int, w: int, sig: int, a: int, b: int,
     # ---- one edit of the definitions; old handle raises or reflects the edited definitions
     label(EDITS[ed])
     kk, gg, ee, hsrc, pcsrc, hhsrc = k, g, None, None, None, None
+    nok2, late = False, None
     if ed == 1:
         P.k = v
         mm.Other.k = v
@@ -163,11 +173,25 @@ def itemspace(k: int, g: int, k2: int, v: int, w: int, sig: int, a: int, b: int,
     elif ed == 7:
         P.PC.cells["pc"].formula = "lambda: n + k2 + 9"
         pcsrc = "lambda: n + k2 + 9"
+    elif ed == 8:
+        if sig == 4:
+            del mm.Other.hh
+        else:
+            del P.hh
+        hhsrc = "DELETED"
+    elif ed == 9:
+        P.NP.formula = "lambda r, s=5: None"
+    elif ed == 10:
+        del P.PC.k2
+        nok2 = True
+    elif ed == 11:
+        P.PC.lateref = v
+        late = (v,)
     with notrace():
         survived = ((a, 1) if "q" in SIGS[sig][1] else a) in IS.itemspaces
     label("instance %s the edit" % ("survived" if survived else "was discarded by"))
     extra2 = (a * 10 + kk) if sig == 3 else (ee if ee is not None and sig != 4 else 0)
-    St2 = mm.static(a, 1, kk, gg, k2, extra2, h_src=hsrc, pc_src=pcsrc, hh_src=hhsrc)
+    St2 = mm.static(a, 1, kk, gg, k2, extra2, h_src=hsrc, pc_src=pcsrc, hh_src=hhsrc, no_k2=nok2, lateref=late)
     exp2 = _values(St2, sig != 4 and not derived)
     new = _inst(mm, a, s1)
     got2 = _values(new, sig != 4 and not derived)
@@ -175,6 +199,14 @@ def itemspace(k: int, g: int, k2: int, v: int, w: int, sig: int, a: int, b: int,
         if key == "h2" or key == "h0" or True:
             if not check(same_outcome(got2[key], exp2[key]), "re-created instance value %s reflects the edit" % key, lambda: (got2[key], exp2[key])):
                 return False
+    if ed == 9 and sig != 4 and not derived:
+        with notrace():
+            pars = tuple(new.spaces["NP"].parameters)
+        if not check(pars == ("r", "s"), "child space of the re-created instance has the new parameters", lambda: pars):
+            return False
+        nb = call(lambda: new.spaces["NP"][b, 3].cells["both"]())
+        if not check(nb[0] == "ok" and nb[1] == a * 100 + b * 10 + gg, "nested instance with the new signature", lambda: nb):
+            return False
     # old handle: either dead or equal to the current definitions
     try:
         old = _values(i1, sig != 4 and not derived)
@@ -204,7 +236,7 @@ QUERIES = [
                                          [dict(sig=s, ed=[0, NE - 1], s1=0, s2=1, b=0, derived=True) for s in range(NS - 1)]) if tier == "quick" else
           [dict(sig=s, ed=e, s1=s1) for s in range(NS) for e in range(NE) for s1 in range(5)],
           natives=[dict(k=3, g=4, k2=5, v=77, w=99, sig=s, a=a, b=1, s1=s1, s2=s2, ed=e, derived=False)
-                   for (s, a, s1, s2, e) in ((0, 1, 0, 1, 1), (1, 0, 3, 4, 3), (2, 0, 4, 0, 2), (3, 1, 2, 0, 1), (4, 1, 1, 2, 4), (0, 0, 0, 2, 5), (1, 1, 1, 2, 6), (3, 0, 0, 1, 7), (2, 1, 1, 1, 0))] +
+                   for (s, a, s1, s2, e) in ((0, 1, 0, 1, 1), (1, 0, 3, 4, 3), (2, 0, 4, 0, 2), (3, 1, 2, 0, 1), (4, 1, 1, 2, 4), (0, 0, 0, 2, 5), (1, 1, 1, 2, 6), (3, 0, 0, 1, 7), (2, 1, 1, 1, 0), (4, 1, 0, 1, 8), (0, 1, 0, 1, 8), (0, 0, 0, 1, 9), (1, 1, 0, 1, 9), (0, 1, 0, 1, 10), (1, 0, 0, 1, 11), (3, 1, 0, 1, 11))] +
                   [dict(k=3, g=4, k2=5, v=77, w=99, sig=s, a=1, b=0, s1=0, s2=1, ed=e, derived=True) for (s, e) in ((0, 3), (1, 1), (2, 6), (3, 4), (0, 2))],
           bounds=lambda tier: {"signatures": [s[0] for s in SIGS], "spellings": 5, "arguments": "{0,1}", "edits": EDITS, "nesting": "parametric child of a parametric space", "derived": "instances of a parametric space that inherits the cells/refs from P, edits applied to P",
                                "values": "k, g, k2, edit operand, assigned input: unbounded symbolic ints"},
